@@ -98,6 +98,7 @@ fn base_inv(lang: &str, mode: Mode, config: String) -> Inv {
         role: "ref".into(),
         src_age: 0,
         roots: vec![],
+        out_sub: String::new(),
     }
 }
 
@@ -120,7 +121,17 @@ pub fn gen_c06(r: &mut Rng, tier: Tier) -> Case {
     let (lang, mode) = pick_lang_mode(r);
     let mut o = gen_opts_for(&lang, r, tier);
     o.same_names = std::env::var_os("VERIF_PROBE_SAME_NAMES").is_some() && r.chance(1, 4);
+    // the same type name in different crates is legitimate in multi-file mode (own file each)
+    o.same_names_other_crate = mode == Mode::Folder && r.chance(1, 3);
+    o.symlinks = r.chance(1, 8);
     o.reexports = std::env::var_os("VERIF_PROBE_REEXPORTS").is_some() && r.chance(1, 3);
+    if o.symlinks {
+        // the shared file's items exist twice: keep every name unique so that the two copies are
+        // the only same-named items (identical text, hence no tie to break)
+        o.same_names_other_crate = false;
+        o.same_names = false;
+    }
+    let symlinks = o.symlinks;
     let world = gen::gen_world(r, &o);
     let tree0 = world.render();
     let config = gen::default_config(r, &lang, false);
@@ -160,7 +171,15 @@ pub fn gen_c06(r: &mut Rng, tier: Tier) -> Case {
                 inv.sched = random_sched(r);
             }
             3 => inv.hash_seed = r.next(),
-            4 if mode == Mode::File && roots.is_empty() => {
+            5 if roots.is_empty() && !world.noise && world.crates.len() > 1 => {
+                // the same files handed over as one root per crate directory instead of one
+                // root for the whole workspace
+                let mut v: Vec<String> = world.crates.iter().map(|c| c.dir.clone()).collect();
+                r.shuffle(&mut v);
+                inv.roots = v;
+                inv.role = "roots".into();
+            }
+            4 if mode == Mode::File && roots.is_empty() && !symlinks => {
                 // same items, different split over files and directories
                 if split_version.is_none() || r.chance(1, 3) {
                     versions.push(world.resplit(r).render());
@@ -200,6 +219,9 @@ fn c06_class(reference: &Inv, inv: &Inv) -> (String, Vec<&'static str>) {
     let mut dims = vec![];
     if inv.version != reference.version {
         dims.push("SPLIT");
+    }
+    if inv.roots != reference.roots {
+        dims.push("ROOTS");
     }
     if inv.hash_seed != reference.hash_seed {
         dims.push("HASHSEED");
@@ -318,7 +340,7 @@ fn eval_c06(case: &Case, sc: &mut Scratch, res: &mut EvalResult) {
             if ob != ref_bytes {
                 let (file, msg) = first_diff(&ref_bytes, &ob);
                 let ext = Path::new(&file).extension().map(|e| e.to_string_lossy().into_owned()).unwrap_or_default();
-                let dup = if case.versions.iter().any(has_duplicate_names) { "|dup_names" } else { "" };
+                let dup = if case.versions.iter().any(|t| has_duplicate_names(t, &inv.mode)) { "|dup_names" } else { "" };
                 res.violations.push(Violation {
                     property: "C06".into(),
                     class,
@@ -361,6 +383,7 @@ pub fn gen_c07(r: &mut Rng, tier: Tier) -> Case {
     // consts with back ends that have no const support are one of the named edge inputs
     o.consts = lang_supports_consts(&lang) || r.chance(1, 10);
     o.same_names = r.chance(1, 10);
+    o.symlinks = r.chance(1, 6);
     let world = gen::gen_world(r, &o);
     let mut tree = world.render();
     let mut notes = vec![];
@@ -500,6 +523,11 @@ fn eval_c07(case: &Case, sc: &mut Scratch, res: &mut EvalResult) {
                 push("PANIC", format!("{file}|{}", norm_panic_message(&msg)), format!("panic at {site}: {msg} [{ctxs}]"));
             }
             ResultClass::Deadlock => push("DEADLOCK", ctxs.clone(), format!("all simulated threads blocked: {}", o.panic_message)),
+            ResultClass::NoProgress if o.panic_message.starts_with("uncontrolled_spin") => push(
+                "NO_PROGRESS",
+                format!("{ctxs}|uncontrolled_spin"),
+                format!("invocation spins on the CPU inside the code under test ({})", o.panic_message),
+            ),
             ResultClass::NoProgress => push(
                 "NO_PROGRESS",
                 ctxs.clone(),
@@ -630,7 +658,11 @@ fn apply_preseed(case: &Case, out: &Path) {
     }
     let _ = std::fs::create_dir_all(out);
     for (name, content) in &case.preseed {
-        let _ = std::fs::write(out.join(name), content);
+        let p = out.join(name);
+        if let Some(parent) = p.parent() {
+            let _ = std::fs::create_dir_all(parent);
+        }
+        let _ = std::fs::write(p, content);
     }
 }
 
@@ -641,14 +673,46 @@ pub fn gen_c08(r: &mut Rng, tier: Tier) -> Case {
     let world = gen::gen_world(r, &o);
     let good = world.render();
     let p = &POISONS[r.below(POISONS.len() as u64) as usize];
+    // the construct may sit in a nested module, next to valid items, or alone in its file
+    let wrap = |text: &str, depth: u64| -> String {
+        let mut t = text.to_string();
+        for d in 0..depth {
+            let body: String = t.lines().map(|l| format!("    {l}\n")).collect();
+            t = format!("pub mod nested{d} {{\n    use super::*;\n{body}}}\n");
+        }
+        t
+    };
+    let depth = if r.chance(1, 4) { r.range(1, 2) } else { 0 };
+    let poison_text = wrap(p.poison, depth);
+    // the skip marker in one of its equivalent spellings
+    let spell = |r: &mut Rng, s: &str| -> String {
+        let alts = [
+            "#[serde(skip)]",
+            "#[typeshare(skip)]",
+            "#[serde(default, skip)]",
+            "#[serde(rename = \"bigOne\", skip)]",
+            "#[serde(skip, rename = \"bigOne\")]",
+            "#[serde(default = \"mk_default\", skip)]",
+            "#[typeshare(typescript(readonly), skip)]",
+            "#[serde(skip)] #[serde(default)]",
+            "#[serde(default)] #[typeshare(skip)]",
+        ];
+        let a = r.pick(&alts).to_string();
+        if s.contains("#[serde(skip)]") {
+            s.replacen("#[serde(skip)]", &a, 1)
+        } else {
+            s.replacen("#[typeshare(skip)]", &a, 1)
+        }
+    };
+    let skipped_text = p.skipped.map(|s| wrap(&spell(r, s), depth));
     let mut poisoned = good.clone();
     // same planting position for the poisoned and the skipped variant
     let mut r2 = r.clone();
-    let ppath = plant_chunk(r, &mut poisoned, &world, p.poison, "pz.rs", true);
+    let ppath = plant_chunk(r, &mut poisoned, &world, &poison_text, "pz.rs", true);
     let mut versions = vec![good, poisoned];
     let mut notes = vec![format!("poison:{}:{}", p.id, ppath)];
     let mut has_skipped = false;
-    if let Some(sk) = p.skipped {
+    if let Some(sk) = skipped_text.as_deref() {
         let mut skipped = versions[0].clone();
         let spath = plant_chunk(&mut r2, &mut skipped, &world, sk, "pz.rs", true);
         debug_assert_eq!(spath, ppath);
@@ -690,10 +754,12 @@ pub fn gen_c08(r: &mut Rng, tier: Tier) -> Case {
         ops.push(inv);
     }
     let preseed = gen_preseed(r, &lang, &mode, &world);
+    let extra: Vec<String> = if r.chance(1, 8) { vec!["--target-os".into(), r.pick(&["linux", "ios", "android"]).to_string()] } else { vec![] };
     for o in ops.iter_mut() {
         if r.chance(1, 8) {
             o.src_age = r.range(1, 2) as u8;
         }
+        o.extra = extra.clone();
     }
     Case { property: "C08".into(), versions, ops, notes, preseed }
 }
@@ -895,7 +961,18 @@ pub fn gen_c17(r: &mut Rng, tier: Tier) -> Case {
         }
         notes.push("clock_skew".into());
     }
-    let preseed = if r.chance(1, 4) { gen_preseed(r, &lang, &mode, &worlds[0]) } else { vec![] };
+    let mut preseed = if r.chance(1, 4) { gen_preseed(r, &lang, &mode, &worlds[0]) } else { vec![] };
+    // output path shape: nested directories that do not exist yet, trailing slash
+    if r.chance(1, 6) {
+        let sub = r.pick(&["gen/nested", "gen/", "a/b/c"]).to_string();
+        for o in ops.iter_mut() {
+            o.out_sub = sub.clone();
+        }
+        let dir = if sub.ends_with('/') { sub.clone() } else { format!("{sub}/") };
+        for p in preseed.iter_mut() {
+            p.0 = format!("{dir}{}", p.0);
+        }
+    }
     Case { property: "C17".into(), versions, ops, notes, preseed }
 }
 
@@ -968,6 +1045,7 @@ fn eval_c17(case: &Case, sc: &mut Scratch, res: &mut EvalResult) {
 }
 
 fn file_kind(name: &str) -> String {
+    let name = name.rsplit('/').next().unwrap_or(name);
     if name == "Codable.swift" {
         "Codable.swift".into()
     } else {
